@@ -85,6 +85,18 @@ func c11Contexts() []c11Ctx {
 		}},
 		{"a.□", func(h *gen.Expr) *gen.Expr { return gen.Chain(a(), dotRHS(h)) }},
 		{"not_null(a, a, □)", func(h *gen.Expr) *gen.Expr { return gen.Func("not_null", a(), a(), h) }},
+		// the hole on the LEFT of an operator whose right side alone would decide the outcome: the left side is evaluated first all the same
+		{"x[?□ && `false`]", func(h *gen.Expr) *gen.Expr { return gen.Chain(x(), gen.StFilter(gen.And(h, gen.LitJSON("false")))) }},
+		{"x[?□ || `true`]", func(h *gen.Expr) *gen.Expr { return gen.Chain(x(), gen.StFilter(gen.Or(h, gen.LitJSON("true")))) }},
+		{"□ && `false`", func(h *gen.Expr) *gen.Expr { return gen.And(h, gen.LitJSON("false")) }},
+		{"□ || `true`", func(h *gen.Expr) *gen.Expr { return gen.Or(h, gen.LitJSON("true")) }},
+		{"x[?(□ || `true`) && a]", func(h *gen.Expr) *gen.Expr {
+			return gen.Chain(x(), gen.StFilter(gen.And(gen.Paren(gen.Or(h, gen.LitJSON("true"))), a())))
+		}},
+		{"x[?!(□ && `null`)]", func(h *gen.Expr) *gen.Expr {
+			return gen.Chain(x(), gen.StFilter(gen.Not(gen.Paren(gen.And(h, gen.LitJSON("null"))))))
+		}},
+		{"□ == □ || `true`", func(h *gen.Expr) *gen.Expr { return gen.Or(gen.Cmp("==", h, h), gen.LitJSON("true")) }},
 		{"merge({k: a}, {k: □})", func(h *gen.Expr) *gen.Expr {
 			return gen.Func("merge", gen.MultiHash(keyA("k"), []*gen.Expr{a()}), gen.MultiHash(keyA("k"), []*gen.Expr{h}))
 		}},
@@ -195,6 +207,24 @@ func c11LateCases() ([]*gen.Expr, []interface{}) {
 		}
 		lateDocs = append(lateDocs, map[string]interface{}{"x": arr, "o": map[string]interface{}{"p": arr[0], "q": arr[17], "r": arr[39]}, "y": []interface{}{arr[:20], arr[20:]}, "k": float64(7)})
 	}
+	// lists in which the failing element is not an object at all (its members are null, and abs(null) is an error): whatever skips
+	// "elements that cannot contribute" must not skip the evaluation that fails on them
+	for bad := 0; bad < 4; bad++ {
+		for _, odd := range []interface{}{float64(7), "str", nil, []interface{}{float64(1)}, true} {
+			mk := func(n int) []interface{} {
+				arr := make([]interface{}, n)
+				for i := range arr {
+					arr[i] = map[string]interface{}{"a": float64(i + 1), "k": float64(i + 1)}
+					if i == bad {
+						arr[i] = odd
+					}
+				}
+				return arr
+			}
+			xs := mk(4)
+			lateDocs = append(lateDocs, map[string]interface{}{"x": xs, "o": map[string]interface{}{"p": xs[0], "q": xs[1], "r": xs[2]}, "y": []interface{}{mk(2), mk(4)}, "k": float64(7)})
+		}
+	}
 	return lateTrees, lateDocs
 }
 
@@ -276,11 +306,16 @@ func c11(r *mon.Run) {
 	typed := func(doc interface{}) interface{} {
 		m := doc.(map[string]interface{})
 		out := map[string]interface{}{"o": m["o"], "k": m["k"]}
+		allObjects := true
 		conv := func(v interface{}) []map[string]interface{} {
 			arr := v.([]interface{})
 			ms := make([]map[string]interface{}, len(arr))
 			for i, e := range arr {
-				ms[i] = e.(map[string]interface{})
+				if o, ok := e.(map[string]interface{}); ok {
+					ms[i] = o
+				} else {
+					allObjects = false
+				}
 			}
 			return ms
 		}
@@ -291,6 +326,9 @@ func c11(r *mon.Run) {
 			yy[i] = conv(e)
 		}
 		out["y"] = yy
+		if !allObjects {
+			return doc // (a list holding something that is no object has no []map form)
+		}
 		return out
 	}
 	late := mon.Workload{Name: "errors-in-some-elements", N: len(lateTrees) * LD * 2,
